@@ -134,7 +134,7 @@ ProcTaskEvent(d, S, t, r, tst) ==                                 \* process_tas
   LET ev  == TaskEventName(d, S, t, r, tst)
       w1  == WfNext(S.wf, ev)
       S1  == [S EXCEPT !.wf = w1]
-      unr == IF w1 \in Completed THEN Unreachable(d, S1) ELSE {}
+      unr == IF w1 \in Completed /\ w1 # "canceled" THEN Unreachable(d, S1) ELSE {}   \* fix: not on canceled
   IN IF ~WfHasRow(S.wf, ev) THEN S           \* no row: returns before the unreachable-join check (m.749)
      ELSE IF unr = {} THEN S1 ELSE LogUnreachable([S1 EXCEPT !.wf = "failed"], unr, S1)
 
@@ -402,7 +402,11 @@ UTS(d, S, t, r, ev) ==
             THEN LET a0 == [S |-> IF Len(Edges(d, t)) = 0 THEN [Sg EXCEPT !.seq[li].term = TRUE] ELSE Sg,
                             queue |-> << >>, manualFail |-> FALSE, readied |-> {}]
                      a1 == Edges_(d, a0, li, t, r, 1, res)
-                 IN [S |-> IF a1.manualFail THEN MarkRof(a1.S, a1.readied) ELSE a1.S, queue |-> a1.queue]
+                     \* fix: terminal also when transitions exist but none is satisfied
+                     nx == a1.S.seq[li].next
+                     a2 == IF Len(Edges(d, t)) > 0 /\ ~(\E k \in DOMAIN nx : nx[k])
+                           THEN [a1 EXCEPT !.S.seq[li].term = TRUE] ELSE a1
+                 IN [S |-> IF a2.manualFail THEN MarkRof(a2.S, a2.readied) ELSE a2.S, queue |-> a2.queue]
             ELSE [S |-> Sg, queue |-> << >>]
       Si == ProcTaskEvent(d, Sh.S, t, r, Sh.S.seq[li].st)          \* l.1086
       Sj == RunQueue(d, Si, Sh.queue)                              \* l.1090
